@@ -13,8 +13,8 @@ import (
 	"os"
 	"runtime"
 	rtmetrics "runtime/metrics"
-	"strconv"
 	"sort"
+	"strconv"
 	"sync"
 	"time"
 
@@ -298,8 +298,10 @@ func (i *InMemCollector) VerifBufferedTrace(traceID string) *types.Trace {
 }
 
 // VerifTraceCache / VerifSampleCache expose worker w's two caches (use with the hooks in collect/cache).
-func (i *InMemCollector) VerifTraceCache(w int) cache.Cache             { return i.workers[w].cache }
-func (i *InMemCollector) VerifSampleCache(w int) cache.TraceSentCache { return i.workers[w].sampleCache }
+func (i *InMemCollector) VerifTraceCache(w int) cache.Cache { return i.workers[w].cache }
+func (i *InMemCollector) VerifSampleCache(w int) cache.TraceSentCache {
+	return i.workers[w].sampleCache
+}
 
 // VerifCachedSamplers lists the sampler keys worker w has instantiated (sorted).
 func (i *InMemCollector) VerifCachedSamplers(w int) []string {
@@ -329,10 +331,25 @@ func (i *InMemCollector) VerifQueueLens(w int) (incoming, fromPeer, reload, send
 }
 
 // VerifLastTickUnixNano is the clock reading stored by worker w's most recent tick case (0 = none).
-func (i *InMemCollector) VerifLastTickUnixNano(w int) int64 { return i.workers[w].healthCheckInAt.Load() }
+func (i *InMemCollector) VerifLastTickUnixNano(w int) int64 {
+	return i.workers[w].healthCheckInAt.Load()
+}
 
 // VerifSignalSendEarly does what checkAlloc does for one worker: posts a sendEarly request. wg.Done is
 // called by the worker loop when the ejection has run.
 func (i *InMemCollector) VerifSignalSendEarly(w int, bytes int, wg *sync.WaitGroup) {
 	i.workers[w].sendEarly <- sendEarly{wg: wg, bytesToSend: bytes}
+}
+
+// VerifSenderBarrier returns when the running sendTraces() goroutine has completely transmitted every
+// trace that was on tracesToSend when the call was made (loop mode). Two empty sentinel traces are queued
+// behind them: once the queue is empty the sender has taken the second sentinel, hence finished the
+// body for the first one and for everything before it. A sentinel has no spans, so nothing is transmitted for it.
+func (i *InMemCollector) VerifSenderBarrier() {
+	for k := 0; k < 2; k++ {
+		i.tracesToSend <- sendableTrace{Trace: &types.Trace{}}
+	}
+	for len(i.tracesToSend) > 0 {
+		runtime.Gosched()
+	}
 }
